@@ -78,6 +78,8 @@ InitNode(n) ==
     \* --- user thread --------------------------------------------------------
     upc |-> IF Role[n] = "requestor" THEN "q_start" ELSE "u_idle",
     ucoll |-> FALSE, nops |-> 0, sentRel |-> FALSE, aret |-> "", uret |-> "",
+    \* --- a second user thread holding the same Association object (idle unless UserOps2 gives it something to call) ---
+    upc2 |-> "u_idle", ucoll2 |-> FALSE, nops2 |-> 0, uret2 |-> "",
     sent |-> <<>> ]
 
 Init == /\ nd = [n \in Nodes |-> InitNode(n)]
@@ -135,7 +137,8 @@ Act(r, a, n) ==
     [] a = "DT-1" -> Send(PopProv(r), PduOfPrim(Head(r.provq)))
     [] a = "DT-2" -> Dimse(PopRecv(r), Head(r.recvq))
     [] a = "AR-1" -> Send(PopProv(r), "RELRQ")
-    [] a = "AR-2" -> Put(PopRecv(r), "userq", "REL_IND")
+    \* (the release indication also ends a pending wait for a DIMSE response, as A-ABORT does: C07 repair 3a6ff71)
+    [] a = "AR-2" -> Sentinel(Put(PopRecv(r), "userq", "REL_IND"))
     [] a = "AR-3" -> KillDul(SockClose(Put(PopRecv(r), "userq", "REL_CONF")))
     [] a = "AR-4" -> ArtimStart(Send(PopProv(r), "RELRP"))
     [] a = "AR-5" -> KillDul(ArtimStop(SockShut(r)))
@@ -271,7 +274,12 @@ DulEvent(n) ==
 (* kill() and abort() are called from several places of the association thread (pc field      *)
 (* "apc", return label in "aret") and of user threads ("upc"/"uret").  When they return, the    *)
 (* caller runs on to its next boundary; Cont() is that piece of code for each return label.     *)
-RetF(f) == IF f = "apc" THEN "aret" ELSE "uret"
+RetF(f) == CASE f = "apc" -> "aret" [] f = "upc" -> "uret" [] OTHER -> "uret2"
+NopsF(f) == IF f = "upc" THEN "nops" ELSE "nops2"
+CollF(f) == IF f = "upc" THEN "ucoll" ELSE "ucoll2"
+\* what the second user thread may call (a configuration overrides it with  UserOps2 <- ...)
+UserOps2 == [n \in Nodes |-> {}]
+OpsOf(n, f) == IF f = "upc" THEN UserOps[n] ELSE UserOps2[n]
 AbortShutsSocket == FALSE
 AbShut(r) == IF AbortShutsSocket THEN SockShut(r) ELSE r
 KillFlags(r) == [r EXCEPT !.ckpt = TRUE, !.akill = TRUE, !.est = FALSE, !.paused = TRUE]
@@ -280,9 +288,9 @@ RECURSIVE Cont(_, _, _, _), KillEnter(_, _, _, _)
 Cont(r, n, f, ret) ==
   CASE ret = "fin"     -> \* end of Association.run_reactor: an acceptor shuts the accepted socket down
                           [(IF Role[n] = "acceptor" THEN SockShut(r) ELSE r) EXCEPT !.apc = "done"]
-    [] ret = "uret"    -> [r EXCEPT !.upc = "u_idle"]           \* the API call returns to the user
-    [] ret = "qend"    -> [r EXCEPT !.upc = "q_end"]            \* AE.associate() returns, not established
-    [] ret = "rlend"   -> [r EXCEPT !.ckpt = TRUE, !.upc = "u_idle"]   \* release(): checkpoint.set()
+    [] ret = "uret"    -> [r EXCEPT ![f] = "u_idle"]            \* the API call returns to the user (thread f)
+    [] ret = "qend"    -> [r EXCEPT ![f] = "q_end"]             \* AE.associate() returns, not established
+    [] ret = "rlend"   -> [r EXCEPT !.ckpt = TRUE, ![f] = "u_idle"]    \* release(): checkpoint.set()
     \* back in _run_reactor: `if self.acse.is_release_requested() and self.is_established:` - the queue is looked at
     \* first (since the C06 repair 54b6f12), whether or not the association is still established
     [] ret = "loop"    -> [r EXCEPT !.apc = "r_rel"]
@@ -478,90 +486,90 @@ QWait(n) ==     \* receive_pdu(wait=True, timeout=acse_timeout) and the reaction
         /\ UNCHANGED <<wire, weof, npeer>>
 
 ------------------------------------------------------------------------------
-(* User thread: public API calls on an association object *)
-CanCall(n, op) == /\ nd[n].upc = "u_idle" /\ op \in UserOps[n] /\ nd[n].nops < MaxOps
-                  /\ nd[n].apc # "a_start"
+(* User threads: public API calls on an association object; f is the thread ("upc", or "upc2" for a second one) *)
+CanCall(n, op, f) == /\ nd[n][f] = "u_idle" /\ op \in OpsOf(n, f) /\ nd[n][NopsF(f)] < MaxOps
+                     /\ nd[n].apc # "a_start" /\ nd[n].upc \notin {"q_start", "q_conn", "q_wait"}
 
-UAbort(n) ==
+UAbort(n, f) ==
   LET r == nd[n] IN
-  /\ CanCall(n, "abort")
-  /\ Upd(n, AbortCall([r EXCEPT !.nops = @ + 1], n, "upc", "uret"))
+  /\ CanCall(n, "abort", f)
+  /\ Upd(n, AbortCall([r EXCEPT ![NopsF(f)] = @ + 1], n, f, "uret"))
 
 \* negotiate_release(): send_release(request) up to the blocking receive_pdu
-SendRelRq(r) == [Put(r, "provq", "REL_RQ") EXCEPT !.sentRel = TRUE, !.upc = "rl_wait"]
+SendRelRq(r, f) == [Put(r, "provq", "REL_RQ") EXCEPT !.sentRel = TRUE, ![f] = "rl_wait"]
 
 \* release(): est test; checkpoint.clear(); spin until paused; negotiate_release()
-URelease(n) ==
+URelease(n, f) ==
   LET r == nd[n] IN
-  /\ CanCall(n, "release")
-  /\ IF ~r.est THEN Upd(n, [r EXCEPT !.nops = @ + 1])
-     ELSE LET r1 == [r EXCEPT !.nops = @ + 1, !.ckpt = FALSE, !.ucoll = FALSE] IN
-          IF r1.paused THEN Upd(n, SendRelRq(r1))
-          ELSE Upd(n, [r1 EXCEPT !.upc = "rl_spin"])
+  /\ CanCall(n, "release", f)
+  /\ IF ~r.est THEN Upd(n, [r EXCEPT ![NopsF(f)] = @ + 1])
+     ELSE LET r1 == [r EXCEPT ![NopsF(f)] = @ + 1, !.ckpt = FALSE, ![CollF(f)] = FALSE] IN
+          IF r1.paused THEN Upd(n, SendRelRq(r1, f))
+          ELSE Upd(n, [r1 EXCEPT ![f] = "rl_spin"])
 
-RlSpin(n) ==
+RlSpin(n, f) ==
   LET r == nd[n] IN
-  /\ r.upc = "rl_spin" /\ r.paused
+  /\ r[f] = "rl_spin" /\ r.paused
   \* (the association may have ended while release() waited for the reactor: re-test, C06 repair)
-  /\ Upd(n, IF r.est THEN SendRelRq(r) ELSE Cont(r, n, "upc", "rlend"))
+  /\ Upd(n, IF r.est THEN SendRelRq(r, f) ELSE Cont(r, n, f, "rlend"))
 
-RlWait(n) ==    \* negotiate_release loop: receive_pdu(wait=True, timeout=acse_timeout)
+RlWait(n, f) ==    \* negotiate_release loop: receive_pdu(wait=True, timeout=acse_timeout)
   LET r == nd[n] IN
-  /\ r.upc = "rl_wait"
+  /\ r[f] = "rl_wait"
   /\ \/ /\ r.userq # <<>>
         /\ LET p  == Head(r.userq)
                r1 == [r EXCEPT !.userq = Tail(@)] IN
            IF p \in {"ABORT", "PABORT"}
            THEN \* (a concurrent abort() has already reported it: no second EVT_ABORTED, C06 repair)
-                Upd(n, KillEnter(IF r1.abt \/ r1.rel THEN r1 ELSE Fire([r1 EXCEPT !.abt = TRUE, !.est = FALSE], "ABORTED"), n, "upc", "rlend"))
+                Upd(n, KillEnter(IF r1.abt \/ r1.rel THEN r1 ELSE Fire([r1 EXCEPT !.abt = TRUE, !.est = FALSE], "ABORTED"), n, f, "rlend"))
            ELSE IF p = "REL_IND"
            THEN \* release collision
                 IF Role[n] = "requestor"
-                THEN Upd(n, [Put(r1, "provq", "REL_RP") EXCEPT !.ucoll = TRUE])
-                ELSE Upd(n, [r1 EXCEPT !.ucoll = TRUE])
+                THEN Upd(n, [Put(r1, "provq", "REL_RP") EXCEPT ![CollF(f)] = TRUE])
+                ELSE Upd(n, [r1 EXCEPT ![CollF(f)] = TRUE])
            ELSE \* a primitive with a result: the release confirmation
-                LET r2 == IF Role[n] = "acceptor" /\ r1.ucoll THEN Put(r1, "provq", "REL_RP") ELSE r1 IN
-                \* (not reported if a concurrent abort() has already reported the abort, C06 repair)
-                Upd(n, KillEnter(IF r2.abt THEN r2 ELSE Fire([r2 EXCEPT !.rel = TRUE, !.est = FALSE], "RELEASED"), n, "upc", "rlend"))
+                LET r2 == IF Role[n] = "acceptor" /\ r1[CollF(f)] THEN Put(r1, "provq", "REL_RP") ELSE r1 IN
+                \* (not reported if a concurrent abort() has already reported the abort, or the reactor the release: C06 repairs)
+                Upd(n, KillEnter(IF r2.abt \/ r2.rel THEN r2 ELSE Fire([r2 EXCEPT !.rel = TRUE, !.est = FALSE], "RELEASED"), n, f, "rlend"))
      \/ /\ r.userq = <<>> /\ TimePasses(n)    \* ACSE timeout: send_abort(0x02), kill
         /\ nd' = [nd EXCEPT ![n] = KillEnter(IF r.abt \/ r.rel THEN r
                                              ELSE Fire([Put(r, "provq", "ABORT_P") EXCEPT !.abt = TRUE, !.est = FALSE], "ABORTED"),
-                                             n, "upc", "rlend")]
+                                             n, f, "rlend")]
         /\ ntick' = ntick + 1
         /\ UNCHANGED <<wire, weof, npeer>>
 
 \* send_c_echo(): est test; checkpoint.clear(); spin; send_msg; get_msg(block=True); checkpoint.set()
-UEcho(n) ==
+UEcho(n, f) ==
   LET r == nd[n] IN
-  /\ CanCall(n, "echo")
-  /\ IF ~r.est THEN Upd(n, [r EXCEPT !.nops = @ + 1])    \* raises RuntimeError
-     ELSE LET r1 == [r EXCEPT !.nops = @ + 1, !.ckpt = FALSE] IN
-          IF r1.paused THEN Upd(n, [Put(r1, "provq", "PDATA") EXCEPT !.upc = "e_wait"])
-          ELSE Upd(n, [r1 EXCEPT !.upc = "e_spin"])
+  /\ CanCall(n, "echo", f)
+  /\ IF ~r.est THEN Upd(n, [r EXCEPT ![NopsF(f)] = @ + 1])    \* raises RuntimeError
+     ELSE LET r1 == [r EXCEPT ![NopsF(f)] = @ + 1, !.ckpt = FALSE] IN
+          IF r1.paused THEN Upd(n, [Put(r1, "provq", "PDATA") EXCEPT ![f] = "e_wait"])
+          ELSE Upd(n, [r1 EXCEPT ![f] = "e_spin"])
 
-ESpin(n) ==
+ESpin(n, f) ==
   LET r == nd[n] IN
-  /\ r.upc = "e_spin" /\ r.paused
-  /\ Upd(n, [Put(r, "provq", "PDATA") EXCEPT !.upc = "e_wait"])
+  /\ r[f] = "e_spin" /\ r.paused
+  /\ Upd(n, [Put(r, "provq", "PDATA") EXCEPT ![f] = "e_wait"])
 
 \* _handle_no_response
 \* (an A-ABORT / A-P-ABORT indication, and since the C06 repair a pending A-RELEASE request, is left to the reactor)
-NoResponse(r, n) == IF r.userq # <<>> /\ Head(r.userq) \in {"ABORT", "PABORT", "REL_IND"} THEN Cont(r, n, "upc", "uret")
-                    ELSE IF r.est THEN AbortCall(r, n, "upc", "uret")
-                    ELSE Cont(r, n, "upc", "uret")
+NoResponse(r, n, f) == IF r.userq # <<>> /\ Head(r.userq) \in {"ABORT", "PABORT", "REL_IND"} THEN Cont(r, n, f, "uret")
+                       ELSE IF r.est THEN AbortCall(r, n, f, "uret")
+                       ELSE Cont(r, n, f, "uret")
 
-EWait(n) ==     \* get_msg(block=True) with the DIMSE timeout; then checkpoint.set(); then the result
+EWait(n, f) ==     \* get_msg(block=True) with the DIMSE timeout; then checkpoint.set(); then the result
   LET r == nd[n] IN
-  /\ r.upc = "e_wait"
+  /\ r[f] = "e_wait"
   /\ \/ /\ r.msgq # <<>>
         /\ LET m  == Head(r.msgq)
                r1 == [r EXCEPT !.msgq = Tail(@), !.ckpt = TRUE] IN
-           IF m = "NONE" THEN Upd(n, NoResponse(r1, n))
-           ELSE IF m = "RSP" THEN Upd(n, Cont(r1, n, "upc", "uret"))
+           IF m = "NONE" THEN Upd(n, NoResponse(r1, n, f))
+           ELSE IF m = "RSP" THEN Upd(n, Cont(r1, n, f, "uret"))
            ELSE \* a request where a response was expected: invalid response -> abort()
-                Upd(n, AbortCall(r1, n, "upc", "uret"))
+                Upd(n, AbortCall(r1, n, f, "uret"))
      \/ /\ r.msgq = <<>> /\ TimePasses(n)     \* DIMSE timeout
-        /\ nd' = [nd EXCEPT ![n] = NoResponse([r EXCEPT !.ckpt = TRUE], n)]
+        /\ nd' = [nd EXCEPT ![n] = NoResponse([r EXCEPT !.ckpt = TRUE], n, f)]
         /\ ntick' = ntick + 1
         /\ UNCHANGED <<wire, weof, npeer>>
 
@@ -589,8 +597,9 @@ PeerClose(n) ==
 DulStep(n)   == DulIO(n) \/ DulEvent(n)
 AssocStep(n) == AStart(n) \/ AccWait(n) \/ RTop(n) \/ RWait(n) \/ RMsg(n) \/ RRel(n) \/ RRelMid(n) \/ RAbt(n)
                 \/ RIdle(n) \/ KillSpin(n, "apc") \/ AbortMid(n, "apc")
-UserStep(n)  == QStart(n) \/ QConn(n) \/ QWait(n) \/ UAbort(n) \/ URelease(n) \/ RlSpin(n) \/ RlWait(n)
-                \/ UEcho(n) \/ ESpin(n) \/ EWait(n) \/ KillSpin(n, "upc") \/ AbortMid(n, "upc")
+UThread(n, f) == UAbort(n, f) \/ URelease(n, f) \/ RlSpin(n, f) \/ RlWait(n, f) \/ UEcho(n, f) \/ ESpin(n, f) \/ EWait(n, f)
+                 \/ KillSpin(n, f) \/ AbortMid(n, f)
+UserStep(n)  == QStart(n) \/ QConn(n) \/ QWait(n) \/ UThread(n, "upc") \/ UThread(n, "upc2")
 EnvStep(n)   == ArtimTick(n) \/ PeerClose(n) \/ \E f \in PeerFrames : PeerSend(n, f)
 
 Next == \E n \in Nodes : DulStep(n) \/ AssocStep(n) \/ UserStep(n) \/ EnvStep(n)
@@ -607,7 +616,7 @@ C05_DefinedEventsOnly == \A n \in Nodes : nd[n].crash = <<>> \/ nd[n].crash \in 
 \* every thread of the node has run to completion
 ThreadsDone(r) == /\ r.dpc \in {"none", "done", "dead"}
                   /\ r.apc \in {"none", "done"}
-                  /\ r.upc \in {"u_idle", "q_end"}
+                  /\ r.upc \in {"u_idle", "q_end"} /\ r.upc2 = "u_idle"
 \* "idle": the provider thread ended normally and the transport connection is closed.  A thread
 \* that was told to stop while in Sta1 with the connection indication still queued ends in Sta2
 \* (nothing runs any more, socket closed); that is recorded by IdleStrict as an observation only.
